@@ -129,6 +129,20 @@ class ConstructInterface(Interface):
 
     # ----------------------------------------------------------------- parameters
     def call_param(self, eng, p, args, kws, st, node):
+        if p.pkind == 'predicate3' and len(args) == 3:
+            # RepeatUntil's predicate(element, list so far, context): a total, pure function of exactly what it is handed
+            lst = st.get(args[1]) if isinstance(args[1], VRef) else None
+            if lst is None or getattr(lst, 'arr', None) is None or lst.ekind != 'val':
+                raise OutOfReach('predicate called with a list the model does not follow')
+            prelude.declare_fun('ru_pred', [t.INT, t.VAL, 'VArr', t.INT, 'Heap', 'Dom', t.INT], t.BOOL)
+            H, D = self.H(st)
+            out = []
+            nc, isc = eng.fork(st, t.not_(p.callable_t))
+            if nc is not None:
+                out.extend(eng.raise_(nc, 'TypeError', origin='calling a non-callable parameter'))
+            if isc is not None:
+                out.append((isc, VBool(t.app('ru_pred', t.BOOL, p.ident, eng.to_dyn(args[0], isc), lst.arr, lst.len, H, D, self.ctx_addr(eng, args[2], isc)))))
+            return out
         out = super().call_param(eng, p, args, kws, st, node)
         return out
 
@@ -842,15 +856,32 @@ class ConstructInterface(Interface):
         context as keyword arguments and a fresh path: a value or any ConstructError whose path restarts at the
         operation tag (this is what Tunnel/Select do; the restarted path is the C18 finding recorded for them)"""
         out = []
-        ok = fresh('pub_ok', t.BOOL)
+        det = meth == 'build' and self.sub_seq and isinstance(kwv, VRef) and type(st.get(kwv)).__name__ == 'OContainer'
+        if det:
+            # functional contracts: the outcome of the public build is a function of (construct, value, the context it is given a
+            # copy of); it starts a stream of its own, so the caller's stream and scope are untouched
+            for fn, so in (('Q_ok', t.BOOL), ('Q_len', t.INT), ('Q_exc', t.INT)):
+                prelude.declare_fun(fn, [t.INT, t.VAL, 'Heap', 'Dom', t.INT], so)
+            prelude.declare_fun('Q_bytes', [t.INT, t.VAL, 'Heap', 'Dom', t.INT], t.ARR)
+            H, D = self.H(st)
+            qa = (sc.ident, eng.to_dyn(args[0], st), H, D, st.get(kwv).addr)
+            ok = t.app('Q_ok', t.BOOL, *qa)
+        else:
+            ok = fresh('pub_ok', t.BOOL)
         good, bad = eng.fork(st, ok)
         if good is not None:
             if meth == 'parse':
                 out.append((good, VDyn(fresh('pub_val', t.VAL))))
+            elif det:
+                ln = t.app('Q_len', t.INT, *qa)
+                good.assume(t.ge(ln, t.ZERO))
+                arr = t.app('Q_bytes', t.ARR, *qa)
+                eng.assume_byte_range(good, arr, t.ZERO, ln)
+                out.append((good, VBytes(arr, t.ZERO, ln)))
             else:
                 out.append((good, eng.fresh_bytes(good, 'pub_bytes')))
         if bad is not None:
-            ec = fresh('pub_exc', t.INT)
+            ec = t.app('Q_exc', t.INT, *qa) if det else fresh('pub_exc', t.INT)
             self.construct_error(eng, bad, ec)
             p = VStr(fresh('pub_path', t.STR))
             bad.assume(t.str_prefixof(S('(parsing)' if meth == 'parse' else '(building)'), p.t))
